@@ -143,6 +143,13 @@ func c14Process(w c14Work, variant uint64) (digest uint64, perr string) {
 			if err != nil {
 				break
 			}
+			if variant != 0 && w.aux%2 == 0 {
+				// in the concurrent pass only: an unrelated message is encoded first, into a destination that is too
+				// short (its caller's mistake); what is computed for d must be what the sequential pass computed
+				if o, oerr := protocol.NewDHCPOffer(uint32(w.aux)+77, []byte{2, 9, 9, byte(w.aux), 7, 7}); oerr == nil {
+					o.Read(make([]byte, 60+int(w.aux%100)))
+				}
+			}
 			buf := make([]byte, 1024)
 			n, _ := d.Read(buf)
 			add(buf[:n])
@@ -365,6 +372,10 @@ func c14Eval(c *fw.Ctx, data any) {
 	if c.Index%4 == 0 {
 		c14Disjoint(c)
 	}
+	// ---- a long run of the generator: ids stay distinct well past 2^24 draws in one process ----
+	if c.Index == 1 || c.Index%400 == 399 {
+		c14Marathon(c)
+	}
 
 	// ---- (b) cross-talk ----
 	var work []c14Work
@@ -485,4 +496,51 @@ func c14Disjoint(c *fw.Ctx) {
 			}
 		})
 	}
+}
+
+
+// c14Marathon draws 2^24 + 2^17 ids from the process-wide generator on 8 goroutines and checks them for duplicates in a
+// chunked bit set (a counter narrowed to 16, 20 or 24 bits repeats itself within this run; 2^32 is out of reach and
+// excluded by assumption).
+func c14Marathon(c *fw.Ctx) {
+	const G = 8
+	const total = 1<<24 + 1<<17
+	logs := make([][]uint32, G)
+	var wg sync.WaitGroup
+	start := make(chan struct{})
+	for g := 0; g < G; g++ {
+		wg.Add(1)
+		go func(g int) {
+			defer wg.Done()
+			l := make([]uint32, 0, total/G)
+			<-start
+			for i := 0; i < total/G; i++ {
+				l = append(l, of.NewOfp13Header().Xid)
+			}
+			logs[g] = l
+		}(g)
+	}
+	close(start)
+	wg.Wait()
+	bits := map[uint32]*[1024]uint64{}
+	n := 0
+	for g, l := range logs {
+		for i, id := range l {
+			ch := bits[id>>16]
+			if ch == nil {
+				ch = new([1024]uint64)
+				bits[id>>16] = ch
+			}
+			w, b := (id&0xffff)>>6, uint64(1)<<(id&63)
+			if ch[w]&b != 0 {
+				c.Violation("ids", "duplicate", "long-run", fmt.Sprintf("transaction id %d (%#x) was handed out twice within %d consecutive draws on %d goroutines (second time: goroutine %d, its draw %d)", id, id, total, G, g, i))
+				c.Count("marathon_ids_drawn", int64(n))
+				return
+			}
+			ch[w] |= b
+			n++
+		}
+	}
+	c.Count("marathon_ids_drawn", int64(n))
+	c.Count("marathons", 1)
 }
